@@ -41,6 +41,18 @@ EXCEPTIONS = {
 }
 
 
+# Counted loops whose 32-bit counter is compared with a size_t bound that the `fits` prover cannot bound below 2^32 by itself:
+# the counter would wrap before reaching a bound >= 2^32, so termination needs the stated reason.
+IV32_LISTED = {
+    "ext_header_path_decoder": "bound = data_len or data_len + 1, where data_len = ext_header_len - field_size - 1 at the only call chain (decode_extended_headers -> "
+                               "lha_ext_header_decode -> table), ext_header_len being decoded from at most 32 bits and >= field_size + 1 there (proved for data_len by the "
+                               "prover; the + 1 stays below 2^32 because data_len <= 2^32 - 4)",
+    "check_l0_checksum": "bound = raw_data_len - 2 of a level-0/1 base header, whose length is header_len + 2 with header_len a single byte (decode_level0_header extends "
+                         "the raw data to exactly that before calling); assumption A-hdr32",
+    "skip_sfx": "bound = stream->leadin_len, which never exceeds LEADIN_BUFFER_LEN = 24 (inductive invariant leadin_len in [0,24] proved by C08 R1)",
+}
+
+
 def run(tier, seed):
     rep = Report("C13", tier, "other",
                  "Static termination classification of every natural loop of lib/ and src/ (counted induction with an invariant "
@@ -77,12 +89,18 @@ def run(tier, seed):
                     rep.ok(rid, "%s loop at line %s: class %s" % (fn.cname, li.line, li.cls), li.witness, where)
                     if len(rep.samples) < 12 and li.cls in ("A'", "B", "D"):
                         rep.sample({"loop": where, "class": li.cls, "witness": li.witness})
+                elif li.narrow and fn.cname in IV32_LISTED:
+                    counts["A*"] = counts.get("A*", 0) + 1
+                    rep.assumed(rid, "%s loop at line %s: counted, %d-bit counter against a %d-bit bound (%s)" % (fn.cname, li.line, li.narrow[0], li.narrow[1], li.narrow[2]),
+                                "A-iv32:%s" % fn.cname, IV32_LISTED[fn.cname], where)
                 elif fn.cname in EXCEPTIONS and len(unclassified) == 1:
                     counts["E"] = counts.get("E", 0) + 1
                     rep.assumed(rid, "%s loop at line %s" % (fn.cname, li.line), "E-%s" % fn.cname, EXCEPTIONS[fn.cname], where)
                 else:
                     exits = ["%s" % [describe_fact(fn, x) for x in F.edge_facts(b, s)] for (b, s) in li.lp["exits"]]
                     rep.violation(rid, "%s: loop at line %s has no termination witness" % (fn.cname, li.line), where,
+                                  ("the %d-bit counter is compared with the %d-bit bound %s, which is not known to fit %d bits: the counter would wrap before reaching it; " % (
+                                      li.narrow[0], li.narrow[1], li.narrow[2], li.narrow[0]) if li.narrow else "") +
                                   "no induction variable with a strict step and bound, no read-like call whose exhausted outcome leaves the loop, "
                                   "no terminated scan or list walk; exit conditions: %s; back-edge facts: %s" % (
                                       exits, [[describe_fact(fn, x) for x in F.on_edge(l, li.header)][:6] for l in li.lp["latches"]]),
